@@ -105,7 +105,6 @@ def real(static, wild, requests, charsub, ext, reserved, prefix='', suffix=''):
             out.append(f())
         except ValueError:
             out.append('ValueError')
-            break
     return out
 
 
@@ -117,8 +116,13 @@ def check_gen(w):
     except Exception as e:
         return False, 'generator for %r raised %s: %s' % (w, type(e).__name__, e)
     exp = reference(*args)
-    if got != exp:
+    # up to and including the first error the names are prescribed; after an error a request must again end in an error or in a fresh name
+    # (never in nothing at all)
+    if got[:len(exp)] != exp:
         return False, 'template %r: issued %r, reference model %r' % (w, got, exp)
+    for x in got[len(exp):]:
+        if not isinstance(x, str):
+            return False, 'template %r: after the error a request returned %r (neither a name nor an error): %r' % (w, x, got)
     names = [g for g in got if g != 'ValueError']
     if len(set(names)) != len(names) or set(names) & set(w.get('reserved', [])):
         return False, 'template %r: duplicate or reserved name in %r' % (w, got)
